@@ -104,7 +104,7 @@ func Register() {
 	}
 	registered = true
 	framework.RegisterPluginBuilder(PluginName, func(framework.PluginArguments) framework.Plugin { return plugin{} })
-	framework.VerifStatementObserver = func(ssn *framework.Session, s *framework.Statement, phase string, cp int) {
+	sched.StmtObserver = func(ssn *framework.Session, s *framework.Statement, phase string, cp int) {
 		if Cur != nil && Cur.CheckStatements && Cur.ssn == ssn {
 			Cur.onStatement(s, phase, cp)
 		}
